@@ -269,6 +269,9 @@ Proof. intros. apply normalize_aux_length. Qed.
 (* ------------------------------------------------------------------ what the relation sweep computes, step by step *)
 Require Import C07_Gauss.
 
+Lemma rank_range : forall M, 0 <= rank M <= Z.of_nat (length M).
+Proof. intro M. split; [apply rank_nonneg|apply rank_le_length]. Qed.
+
 Lemma span_snoc : forall R w v, span (R ++ [w]) v <-> span R v \/ span R (vxor v w).
 Proof.
   intros R w v. rewrite <- span_cons_iff. split; apply span_sub; intros x Hx; apply span_in.
